@@ -39,7 +39,7 @@ META = {
                     'no fault space exists for this property (sequential refinement only)'],
     'probe_names': ['frag_into_frag', 'frag_insert_middle', 'empty_frag', 'equal_text_siblings',
                     'reinsertion_of_removed', 'normalize_merged', 'clone_deep', 'clone_shallow', 'attr_frag',
-                    'cmp_deep_common_ancestor', 'setitem_frag', 'detached_target', 'dfs_exhaustive', 'str_argument', 'shadow_container_edit', 'element_with_str'],
+                    'cmp_deep_common_ancestor', 'setitem_frag', 'detached_target', 'dfs_exhaustive', 'str_argument', 'shadow_container_edit', 'element_with_str', 'insert_beyond_end'],
     'shrink_budget': 500,
     'enum_batch': {'quick': 4, 'thorough': 1},
 }
@@ -333,11 +333,13 @@ class World(object):
             t.real.append(a.real)
             self._model_insert(t, n, a)
         elif o == 'INSERT':
-            i = op['i'] % (n + 1)
+            i = op['i'] % (n + 3)            # up to two positions beyond the end: a list insert clamps
+            if i > n:
+                self.info['insert_beyond_end'] = 1
             if a.kind == 'f' and 0 < i < n and len(a.children) > 1:
                 self.info['frag_insert_middle'] = 1
             t.real.insert(i, a.real)
-            self._model_insert(t, i, a)
+            self._model_insert(t, min(i, n), a)
         elif o in ('INSERT_BEFORE', 'INSERT_AFTER'):
             if t.kind != 'e' or n == 0:
                 return
@@ -666,6 +668,8 @@ class World(object):
             elc = m.children[-1].real if m.children else None
             if fc is not efc or lc is not elc:
                 raise Violation('C06|view|firstLastChild', {'model': m.digest()})
+            if m.children and not rc.hasChildNodes():
+                raise Violation('C06|view|hasChildNodes', {'model': m.digest()})
             if m.kind == 'e':     # sibling navigation is defined through parentNode
                 for k, c in enumerate(m.children):
                     ep = m.children[k - 1].real if k > 0 else None
@@ -684,6 +688,10 @@ class World(object):
         if len(alln) != len(exp) or any(a is not b for a, b in zip(alln, exp)):
             raise Violation('C06|view|allChildNodes', {'model': r.digest()})
         if hasattr(real, 'getElementsByTagName'):
+            got = list(real.getElementsByTagName(['a', 'b']))        # a list of names: same traversal order
+            expe = [x.real for x in self._by_tag(r, ('a', 'b'))]
+            if len(got) != len(expe) or any(a is not b for a, b in zip(got, expe)):
+                raise Violation('C06|view|getElementsByTagName|list', {'model': r.digest(), 'got': len(got), 'expected': len(expe)})
             for tag in TAGS:
                 got = list(real.getElementsByTagName(tag))
                 expe = [x.real for x in self._by_tag(r, tag)]
@@ -698,7 +706,7 @@ class World(object):
             out.extend(self._by_tag(f, tag))
         for c in m.children:
             if c.kind == 'e':
-                if c.tag == tag:
+                if c.tag == tag or (isinstance(tag, tuple) and c.tag in tag):
                     out.append(c)
                 out.extend(self._by_tag(c, tag))
         return out
